@@ -20,7 +20,7 @@ from pv.runner import Res
 ID = "C17"
 RULE = ("generated full domain + problem split into 1-4 overlapping per-agent files (each closed under the names it "
         "uses: types with ancestors, constants, predicates, functions; problem objects of the facts it lists), written "
-        "to a fresh directory; every discovery order up to 24 permutations; optional dummy actions; one converter object per call or (half of the cases) one object for the whole history, first used with the other dummy setting over a directory holding one more agent file; an unrelated typed "
+        "to a fresh directory; every discovery order up to 24 permutations; optional dummy actions; (half of the cases) files of another instance with prefix-related names (domain10-*, problem10-*, domainx) lying in the directory; one converter object per call or (half of the cases) one object for the whole history, first used with the other dummy setting over a directory holding one more agent file; an unrelated typed "
         "and an untyped domain parsed before and after.  Non-trivial = >= 2 files with a non-empty overlap.  Distinct "
         "by (full domain, split).")
 ASSUMPTIONS = ["all agent files declare the same domain name and agree on the declarations they share",
@@ -198,6 +198,19 @@ def check_case(case):
     for i, p in enumerate(parts):
         with open(d / f"problem-agent{i}.pddl", "w") as fh:
             fh.write(sexpr.flat(P.problem_tree(dom, p)))
+    if case.get("decoys"):
+        # files of another instance whose names merely start alike: not part of this combination
+        res.classes[0] += "+decoys"
+        dd = dict(frags[0], predicates=frags[0]["predicates"] + [["decoy-pred", []]])
+        with open(d / "domain10-agent0.pddl", "w") as fh:
+            fh.write(domain_text(dd))
+        with open(d / "domainx.pddl", "w") as fh:
+            fh.write(domain_text(dd))
+        if parts[0]["objects"]:
+            dp = dict(parts[0], objects=parts[0]["objects"] + [["decoy-object", parts[0]["objects"][0][1]]])
+            for name in ("problem10-agent0.pddl", "problemx.pddl"):
+                with open(d / name, "w") as fh:
+                    fh.write(sexpr.flat(P.problem_tree(dom, dp)))
     dummy = bool(case.get("dummy"))
     exp_vocab = c01.expected_vocab(expected)
     if dummy:
@@ -351,7 +364,7 @@ def gen(ch, tier):
         ag["types"] = sorted({t for _, t in part["objects"] if t != "object"})
         ag["extra"] = sorted(set(ag["extra"]))
         ag["consts"] = sorted(set(ag["consts"]))
-    return {"dom": dom, "problem": pr, "agents": agents, "assignment": assignment, "dummy": ch.flag(0.3), "reuse": ch.flag(0.5),
+    return {"dom": dom, "problem": pr, "agents": agents, "assignment": assignment, "dummy": ch.flag(0.3), "reuse": ch.flag(0.5), "decoys": ch.flag(0.5),
             "perm": [ch.int(0, 23)]}
 
 
